@@ -2,11 +2,11 @@
 
 Histories of operations on one future of every kind, run on the real classes; the Lean model
 (AsynqModel.Lib.Futures) replays the same history (correspondence) and the Lean observer `Futures.spec`
-(the statement of C10; proved of the model for all kinds and all histories in which no subscriber raises an exception
-that defeats qcore.safe_repr - C10_spec_holds, hypothesis noWorseOps; the excluded histories are the OPEN FINDING
-"subscriber-repr-error-escapes": fix 591bc3e made FutureBase._computed print safe_repr(e), which swallows what repr(e)
-raises but not what FORMATTING that exception raises; the earlier finding "subscriber-exception-escapes" - repr(e) raising
-anything - is fixed and a regression of it is reported as a violation) judges the implementation's observations on their own.  Families judged by direct expectations in the driver (no model run): suspended, futsubs
+(the statement of C10; proved of the model for all kinds and ALL histories, whatever the subscribers raise - C10_spec_holds;
+the two former findings about un-printable subscriber exceptions are fixed in /repo: "subscriber-exception-escapes" by 591bc3e
+- repr(e) raising - and "subscriber-repr-error-escapes" by 9f49616 - qcore.safe_repr(e) itself raising because formatting what
+repr(e) raised raises; both input classes stay in the generator and a regression of either is reported as a violation)
+judges the implementation's observations on their own.  Families judged by direct expectations in the driver (no model run): suspended, futsubs
 (notification rounds of batches / items / blocking tasks, across threads, with debug options switched in mid-flight),
 futcopy (copies of ConstFuture / ErrorFuture).  Round 5: the error OBJECT (tokens 8..13 = exceptions that mean something to the
 library, e.g. a genuine FutureIsAlreadyComputed about another future raised by a provider) and the ROUTE by which a provider /
@@ -23,7 +23,7 @@ LEAN_MODULES = ["AsynqModel.Theorems.C10"]
 HEADLINE = [
     "AsynqModel.Futures.C10_spec_holds",
     "AsynqModel.Futures.C10_statsOk_needed",
-    "AsynqModel.Futures.C10_subscriber_repr_error_counterexample",   # the open finding in the model; necessity of noWorseOps
+    "AsynqModel.Futures.C10_subscriber_repr_error_repaired",   # the history of the former finding is accepted; its old observations are still rejected
     "AsynqModel.Futures.C10_spec_enforces_runs",
     "AsynqModel.Futures.C10_spec_enforces_outcome",
     "AsynqModel.Futures.C10_spec_enforces_read",
@@ -41,8 +41,6 @@ HEADLINE = [
     "AsynqModel.Futures.C10_subs_after_completion",
     "AsynqModel.Futures.C10_passive_subs_stay",
     "AsynqModel.Futures.C10_unsubscribed_not_notified",
-    "AsynqModel.Futures.C10_printable_exceptions_swallowed",   # induction over the walk of the snapshot (subEscapes has content again)
-    "AsynqModel.Futures.C10_first_exception_decides",
     "AsynqModel.Futures.C10_completer_result",
     "AsynqModel.Futures.C10_raising_subscribers_swallowed",
     "AsynqModel.Futures.C10_hook_failure_after_notification",
@@ -55,6 +53,11 @@ BY_CONSTRUCTION = [
     "AsynqModel.Futures.C10_set_error_none",
     "AsynqModel.Futures.C10_quiet_ops",
     "AsynqModel.Futures.C10_hook_state",
+    # since /repo 9f49616 no subscriber exception leaves _computed (subEscapes _ = false): these two are statements about the
+    # INPUT (in which rounds qcore.safe_repr raises inside _computed = which rounds the regression clause can name), proved
+    # by induction over the walk of the snapshot, but no longer claims about the behaviour
+    "AsynqModel.Futures.C10_printable_exceptions_swallowed",
+    "AsynqModel.Futures.C10_first_exception_decides",
 ]
 THEOREMS = HEADLINE + BY_CONSTRUCTION
 BUILDS = {"quick": ["py"], "thorough": ["py", "cy"]}
@@ -64,7 +67,7 @@ RULE = ("random operation histories (length 1-40, ops value/error/call/is_comput
         "operations) and ErrorFuture(None) (1 in 8 ErrorFutures); a subscriber is well-behaved, raising (three exception classes), "
         "raisingBad (raises an Exception whose repr() raises; about 1 in 20 subscribers of the one-future histories, never in "
         "family futsubs), raisingWorse (raises an Exception whose repr() raises an Exception whose str() raises - the input "
-        "class of the open finding subscriber-repr-error-escapes; about 1 in 40 subscribers of the one-future histories, "
+        "class of the finding subscriber-repr-error-escapes, fixed by 9f49616: ordinary cases that must pass; about 1 in 40 subscribers of the one-future histories, "
         "every pair with every other behaviour in family behpair, corpus replay; never in family futsubs), one-shot "
         "(unsubscribes itself while notified), unsubscribes another handler (earlier, later, itself, unknown), subscribes "
         "a new handler, or re-enters set_value/set_error; value and error tokens stand for exotic objects (None, 0, '', False, "
@@ -113,9 +116,10 @@ TRUSTED = [
 ]
 ASSUMPTIONS = [
     "callbacks raise only Exception (BaseException from a subscriber is out of the statement's scope); the Exception may be "
-    "un-printable: repr() raising (swallowed since 591bc3e) and repr() raising an Exception whose str() raises (OPEN FINDING "
-    "subscriber-repr-error-escapes: generated, modelled, rejected by the observer, C10_subscriber_repr_error_counterexample; "
-    "hypothesis noWorseOps of C10_spec_holds); repr() of the subscriber's exception raising a BaseException-only error is out of scope",
+    "un-printable: repr() raising (swallowed since 591bc3e) and repr() raising an Exception whose str() raises (swallowed since "
+    "9f49616; finding subscriber-repr-error-escapes FIXED: generated as raisingWorse, modelled as the repaired code, "
+    "C10_subscriber_repr_error_repaired; the observer keeps the clause for a regression); repr() of the subscriber's exception "
+    "raising a BaseException-only error is out of scope",
     "a task body that raises a SUBCLASS of AsyncTaskCancelledError / AsyncTaskResult (or GeneratorExit or a subclass of it) ends "
     "with the VALUE None: AsyncTask._continue (async_task.py:197-205) catches `except GeneratorExit` and then compares "
     "type(error) EXACTLY (`is AsyncTaskResult` / `is AsyncTaskCancelledError`), everything else falls to _queue_exit(None) - "
@@ -162,8 +166,7 @@ ASSUMPTIONS = [
     "('complete from construction'); a deep copy / unpickled copy of an UNCOMPUTED Future is outside the statement; THAT a "
     "copy can be made at all (verdict copy-fails) is a precondition the harness checks, not part of the statement",
     "families futsubs / suspended / futcopy are judged by direct expectations (no model run, no theorem); futsubs never "
-    "uses a subscriber whose exception cannot be printed (the open finding subscriber-repr-error-escapes is shown on the "
-    "one-future kinds only)",
+    "uses a subscriber whose exception cannot be printed (the un-printable classes are exercised on the one-future kinds only)",
 ]
 KINDS = ["lazyOk", "lazyErr", "const", "error", "taskOk", "taskErr", "lazySelfSet"]
 OPS = ["value", "error", "call", "isComputed", "setValue", "setError", "reset", "subscribe", "unsubscribe",
@@ -737,11 +740,10 @@ def signature(case, v):
     if case.get("special"):
         return "suspended/%s" % v["spec"]
     if "subscriber-repr-error-escapes@" in v["spec"]:
-        # ONE behaviour (futures.py: safe_repr(e) inside FutureBase._computed's except clause raises when formatting what
-        # repr(e) raised raises), whichever kind of future and whichever operation completes it; the Lean observer gives
-        # this name only when the subscribers it tracked predict the escape (first exception of the round comes from a
-        # raisingWorse subscriber), the completer raised exactly that exception and everything else about the observation
-        # is right; main.py additionally requires CORR=ok
+        # a REGRESSION of /repo 9f49616 (FutureBase._computed must guard safe_repr(e)), whichever kind of future and whichever
+        # operation completes it; the Lean observer gives this name only when the first exception of the round comes from a
+        # raisingWorse subscriber, the completer raised exactly what escaped and everything else is right.  No open entry of
+        # known_findings.json has this signature: it is reported as a VIOLATION
         return "subscriber-repr-error-escapes"
     return "%s/%s" % (case["kind"][0], v["spec"])
 
